@@ -263,6 +263,10 @@ def check_creator(case):
     cells = [PATTERNS[case["pattern"]][j][i] for j in range(j0, j1 + 1) for i in range(i0, i1 + 1)]
     cells = [v for v in cells if v == v]
     exprs = EXPRSETS[case["exprs"]]
+    if case.get("key_order"):
+        # the four limits listed in another order (alphabetical = what str(QcVariableConfig) writes, reversed, rotated)
+        keys = {"alpha": sorted(exprs), "rev": list(reversed(list(exprs))), "rot": list(exprs)[1:] + list(exprs)[:1]}[case["key_order"]]
+        exprs = {k: exprs[k] for k in keys}
     vc = dict(variable="temp", bbox=bbox, start_time=DATES[case["dates"]][0], end_time=DATES[case["dates"]][1], tests=dict(gross_range_test=dict(exprs)))
     got = case["_got"] if "_got" in case else alpha.call(lambda: c.create_config(QcVariableConfig(vc)))
     zero_sum = abs(sum(cells)) == 0
@@ -491,6 +495,9 @@ def run_task(task, acc):
                             for dts in range(len(DATES)):
                                 for ex in range(len(EXPRSETS)):
                                     yield dict(kind="creator", pattern=pattern, dim=dim, box=[i0, i1, j0, j1], dates=dts, exprs=ex)
+                                    if dts == 1 and (i0, j0) == (0, 0):
+                                        for ko in ("alpha", "rev", "rot"):
+                                            yield dict(kind="creator", pattern=pattern, dim=dim, box=[i0, i1, j0, j1], dates=dts, exprs=ex, key_order=ko)
         try:
             run_cases(acc, gen(), check_case)
         finally:
